@@ -33,8 +33,13 @@ for c in classes:
         for b in bases(c):
             bm = methods(b).get(m)
             if bm is None or trivial(bm): continue
-            if f"{classes[b][0]}.{b}.{m}" in verified and f"{mod}.{c}.{m}" not in verified:
-                per_mod.setdefault(mod, []).append(f"{c}.{m} overrides {b}.{m} (which is under contract) and is not a verification unit")
+            # covered per class by other means: the whole-constructor units run the real _setup_jax_functions of each class; solver_state / _restore_state_from_checkpoint
+            # are analysed per class by contracts/frame_static.py and the load_checkpoint units
+            if m in ("_setup_jax_functions", "solver_state", "_restore_state_from_checkpoint"): break
+            # a base method that is itself a unit is applied through its contract; one that is not may be INLINED into a proof made for the base class - either way
+            # an override that is not a unit of its own means that what runs for the subclass is not what was proved
+            if f"{mod}.{c}.{m}" not in verified:
+                per_mod.setdefault(mod, []).append(f"{c}.{m} overrides {b}.{m}" + (" (which is under contract)" if f"{classes[b][0]}.{b}.{m}" in verified else " (which proofs for the base class execute)") + " and is not a verification unit")
             break
 for mod in sorted({v[0] for v in classes.values()}):
     bad = per_mod.get(mod, [])
